@@ -36,10 +36,11 @@ MINE = "C12"
 
 def all_cases(tier: str, seed: int):  # noqa: ANN201
     cfgs = ["stock", "eager"]
+    rcfgs = ["stock", "eager"] * 3 + ["uvloop"]  # a share of the random cases on uvloop
     yield from memstream.sweep_c12(cfgs)
     rng = random.Random(seed * 6151 + 12)
     for _ in range(60000 if tier == "thorough" else 6000):
-        yield memstream.gen_c12(rng, cfgs)
+        yield memstream.gen_c12(rng, rcfgs)
 
 
 def judge(case: dict, col) -> None:  # noqa: ANN001
